@@ -38,12 +38,23 @@ def only_value_error(exc):
     return exc.cls is not None and exc_is_subclass(exc.cls, "ValueError")
 
 
+def accept_pred(u):
+    """The URL-level validity predicate over urlsplit's view (E7): what parse_url must accept."""
+    N = U.u_netloc(u)
+    ps = U.a_portstr(N)
+    return z3.And(z3.Length(u) > 0, z3.Not(U.u_badbr(u)), U.u_scheme(u) == SV("gemini"), z3.Length(U.a_host(N)) > 0,
+                  z3.Or(z3.Not(z3.Contains(N, SV("@"))), z3.And(U.a_user(N) == SV(""), z3.Or(z3.Not(U.a_haspass(N)), U.a_pass(N) == SV("")))),
+                  U.u_frag(u) == SV(""),
+                  z3.Or(z3.Length(ps) == 0, z3.And(z3.InRe(ps, U.DIGITS), z3.StrToInt(ps) <= 65535)))
+
+
 def parse_url_post(E):
     def post(ctx, old, args, outcome):
         (url,) = args
         u = url.z
         if outcome[0] == "raise":
-            return z3.BoolVal(only_value_error(outcome[1]))
+            # refused only when the URL violates the grammar-level predicate (no valid URL is refused)
+            return z3.And(z3.BoolVal(only_value_error(outcome[1])), z3.Not(accept_pred(u)))
         P = outcome[1]
         if not (isinstance(P, VObj) and P.cls == PURL):
             return z3.BoolVal(False)
@@ -54,6 +65,7 @@ def parse_url_post(E):
         if not all(isinstance(g(f), VStr) for f in ("scheme", "hostname", "path", "query", "fragment", "normalized")) or not isinstance(g("port"), VInt):
             return z3.BoolVal(False)
         return z3.And(
+            accept_pred(u),
             U.u_scheme(u) == SV("gemini"), g("scheme").z == SV("gemini"),
             z3.Length(U.a_host(N)) > 0, g("hostname").z == host,
             z3.Or(z3.Not(z3.Contains(N, SV("@"))), z3.And(U.a_user(N) == SV(""), z3.Or(z3.Not(U.a_haspass(N)), U.a_pass(N) == SV("")))),
@@ -128,17 +140,20 @@ def build(E):
     def vu_post(ctx, old, args, outcome):
         (url,) = args
         if outcome[0] == "raise":
-            return z3.BoolVal(only_value_error(outcome[1]))
+            sur = []
+            enc = E.enc_term(ctx, url.z, sur)
+            fits = z3.And(z3.Length(enc) + 2 <= 1024, z3.Not(z3.Or(*sur)) if sur else z3.BoolVal(True))
+            return z3.And(z3.BoolVal(only_value_error(outcome[1])), z3.Not(z3.And(fits, accept_pred(url.z))))
         last = ctx.ghost.get("last_parsed")
         if last is None:
             return z3.BoolVal(False)
         # accepted => fits the request-line limit (UTF-8 bytes + CRLF <= 1024) and parse_url accepted it
         sur = []
         enc = E.enc_term(ctx, url.z, sur)
-        return z3.Length(enc) + 2 <= 1024
+        return z3.And(z3.Length(enc) + 2 <= 1024, accept_pred(url.z))
     E.contracts[f"{URLMOD}:validate_url"] = Contract(
         f"{URLMOD}:validate_url", make_args=pu_args,
-        ensures=[("accepted => len(utf8(url)) + 2 <= 1024 and parse_url accepted it; only ValueError escapes", vu_post)])
+        ensures=[("accepted <=> len(utf8(url)) + 2 <= 1024 and the URL satisfies the validity predicate; only ValueError escapes", vu_post)])
 
     def e7_bounded(seed):
         from pyvc.runner import run_replay
